@@ -248,6 +248,18 @@ class LineBreak(SpanToken):
         self.content = match.group(1)
         self.soft = not self.content.startswith(('  ', '\\'))
 
+    @classmethod
+    def find(cls, string):
+        for match in cls.pattern.finditer(string):
+            if match.group(1) == '\\':
+                # a backslash that is itself escaped does not make a hard line break
+                start = match.start()
+                while start > 0 and string[start - 1] == '\\':
+                    start -= 1
+                if (match.start() - start) % 2 == 1:
+                    match = cls.pattern.match(string, match.start() + 1)
+            yield match
+
 
 class RawText(SpanToken):
     """
